@@ -8,10 +8,47 @@ import TornadoModel.C48.Lemmas
 namespace TornadoModel.C48
 open Spec
 
-/-- `_oauth_escape` is the percent-encoding of RFC 5849 §3.6 -/
+/-- `_oauth_escape` is the percent-encoding function of the specification: `quote`'s range test for the safe bytes is the
+literal RFC 3986 unreserved list (`isUnreserved_eq_spec`), its `%02X` is "digits `0`–`9`, then `A`–`F`" (`hexUp_eq_spec`) -/
 theorem escape_eq_spec (s : Str) : escape s = pctEncode s := by
-  unfold escape pctEncode
+  unfold escape pctEncode pctEncodeOctets
   congr 1
+  funext b
+  exact pctByte_eq_spec b
+
+/-- text as Python holds it: a sequence of code points -/
+def IsText (s : Str) : Prop := ∀ c ∈ s, c < 0x110000
+
+theorem utf8_octets (s : Str) (hs : IsText s) : ∀ b ∈ utf8 s, b < 256 := by
+  intro b hb
+  unfold utf8 at hb
+  obtain ⟨c, hc, hb⟩ := List.mem_flatMap.mp hb
+  exact utf8Cp_lt c (hs c hc) b hb
+
+/-- **escape_conforms**: `_oauth_escape(s)` satisfies RFC 5849 §3.6 clause by clause (`Spec.PctEncoded`, a relation written
+without any of the model's definitions): every unreserved octet of the UTF-8 form stands for itself, every other octet is
+`%` + its two upper-case hexadecimal digits -/
+theorem escape_conforms (s : Str) (hs : IsText s) : PctEncoded (utf8 s) (escape s) := by
+  rw [escape_eq_spec]
+  exact pctEncodeOctets_conforms _ (utf8_octets s hs)
+
+/-- **escape_unique**: and it is the only text that does: §3.6 leaves no freedom (no lower-case hex, no optional escaping) -/
+theorem escape_unique (s : Str) (hs : IsText s) (out : Bytes) (h : PctEncoded (utf8 s) out) : out = escape s :=
+  PctEncoded_unique h (escape_conforms s hs)
+
+/-- **escape_decodes**: the escaped text stands for the UTF-8 octets of `s` and for no other octet string -/
+theorem escape_decodes (s : Str) (hs : IsText s) (bs : Bytes) (h : PctEncoded bs (escape s)) : bs = utf8 s :=
+  PctEncoded_decode_unique h (escape_conforms s hs)
+
+example : IsText [97, 32, 233, 0x1D11E] := by intro c hc; simp at hc; omega
+example : ¬ PctEncoded [126] [37, 55, 69] := by
+  intro h
+  cases h with
+  | esc _ _ _ _ _ hu _ _ _ _ => revert hu; decide
+example : ¬ PctEncoded [47] [37, 50, 102] := by
+  intro h
+  cases h with
+  | esc _ _ _ _ _ _ _ _ hlo _ => revert hlo; decide
 
 /-- escaped text consists of unreserved characters and `%` only — in particular it contains neither `&` nor `=`,
 so the separators of the base string cannot be forged by data -/
@@ -91,7 +128,7 @@ theorem base_uri_eq_spec (url : Str) : baseUri url = baseStringUri url := by
   unfold baseUri baseStringUri
   generalize splitUrl url = t
   obtain ⟨scheme, netloc, path⟩ := t
-  simp only
+  simp only [baseStringUriOf]
   generalize netloc.map lowerA = n
   generalize scheme.map lowerA = s
   have hre := splitPort_reassemble n
@@ -133,6 +170,43 @@ theorem base_uri_eq_spec (url : Str) : baseUri url = baseStringUri url := by
 example : baseUri ("HTTP://Example.com:80/p".toList.map Char.toNat) = "http://example.com/p".toList.map Char.toNat := by decide
 example : baseUri ("https://h:80".toList.map Char.toNat) = "https://h:80/".toList.map Char.toNat := by decide
 
+/-- the shared `splitUrl` characterised by its inverse: a text put together as scheme `://` authority path (scheme without
+`:`, authority without `/`, path empty or starting with `/`) is split into exactly those three parts -/
+theorem splitUrl_assemble (scheme authority path : Str) (hs : cColon ∉ scheme) (ha : cSlash ∉ authority)
+    (hp : path = [] ∨ path.head? = some cSlash) :
+    splitUrl (assembleUrl scheme authority path) = (scheme, authority, path) := by
+  have e : assembleUrl scheme authority path = scheme ++ 58 :: 47 :: 47 :: (authority ++ path) := by
+    simp [assembleUrl]
+  have h1 : ∀ x ∈ scheme, decide (x = cColon) = false := fun x hx => decide_eq_false (fun e => hs (e ▸ hx))
+  have h2 : ∀ x ∈ authority, decide (x = cSlash) = false := fun x hx => decide_eq_false (fun e => ha (e ▸ hx))
+  rw [e]
+  unfold splitUrl
+  rw [takeUntil_stop _ 58 _ (by decide) scheme h1]
+  simp only
+  rcases hp with hp | hp
+  · subst hp
+    rw [List.append_nil, takeUntil_all _ authority h2]
+  · cases path with
+    | nil => simp at hp
+    | cons c p' =>
+      simp only [List.head?_cons, Option.some.injEq] at hp
+      subst hp
+      rw [takeUntil_stop _ cSlash _ (by decide) authority h2]
+
+/-- **base_uri_of_parts**: on a URL given by its components, `_oauth_base_string_uri` computes §3.4.1.2 of those components
+(no parsing function of the model on the specification side) -/
+theorem base_uri_of_parts (scheme authority path : Str) (hs : cColon ∉ scheme) (ha : cSlash ∉ authority)
+    (hp : path = [] ∨ path.head? = some cSlash) :
+    baseUri (assembleUrl scheme authority path) = baseStringUriOf scheme authority path := by
+  rw [base_uri_eq_spec]
+  unfold baseStringUri
+  rw [splitUrl_assemble scheme authority path hs ha hp]
+
+example : cColon ∉ ("HTTP".toList.map Char.toNat) ∧ cSlash ∉ ("Example.com:80".toList.map Char.toNat) ∧
+    (("/p".toList.map Char.toNat) = [] ∨ ("/p".toList.map Char.toNat).head? = some cSlash) := by decide
+example : baseStringUriOf ("HTTP".toList.map Char.toNat) ("Example.com:80".toList.map Char.toNat) ("/p".toList.map Char.toNat)
+    = "http://example.com/p".toList.map Char.toNat := by decide
+
 /-- **base_string_eq_spec**: for every method, URL and parameter list the signature base string of
 `_oauth_signature` / `_oauth10a_signature` is the one RFC 5849 §3.4.1 defines -/
 theorem base_string_eq_spec (method url : Str) (params : List (Str × Str)) :
@@ -144,7 +218,7 @@ theorem base_string_eq_spec (method url : Str) (params : List (Str × Str)) :
 theorem key10a_eq_spec (cs : Str) (ts : Option Str) : key10a cs ts = Spec.key cs ts := by
   unfold key10a Spec.key
   cases ts with
-  | none => simp [escape_eq_spec, pctEncode, utf8]
+  | none => simp [escape_eq_spec, pctEncode, pctEncodeOctets, utf8]
   | some t => simp [escape_eq_spec]
 
 /-- full statement for `_oauth_signature` (OAuth 1.0 function) — false: the secrets are not encoded -/
